@@ -1,6 +1,7 @@
 package checks
 
 import (
+	"encoding/json"
 	"fmt"
 	"strings"
 
@@ -236,6 +237,61 @@ func c05Str(v any) string {
 	return fmt.Sprint(v)
 }
 
+// c05JSONish: static prop texts that start like JSON. A text that IS one JSON array or object is
+// decoded (the documented way of handing a list to a component from the tag); any other text is
+// the string the template's author wrote. Want = what {{ p }} prints in the component.
+var c05JSONish = []struct{ Text, Want string }{
+	{`[1, 2]`, "[1 2]"}, {`{"a": 1}`, "map[a:1]"}, {`[]`, "[]"}, {`["x"]`, "[x]"},
+	{`[1] Introduction`, "[1] Introduction"}, {`{} is the empty object`, "{} is the empty object"}, {`[draft] x`, "[draft] x"}, {`{a} b`, "{a} b"},
+	{`[1,2] [3]`, "[1,2] [3]"}, {`{"a": 1} tail`, `{"a": 1} tail`}, {`[1]x`, "[1]x"}, {`[1],`, "[1],"}, {`[[1]] ]`, "[[1]] ]"}, {`{"a":{}}}`, `{"a":{}}}`},
+	{`[`, "["}, {`{`, "{"}, {`[1`, "[1"}, {`1 [2]`, "1 [2]"}, {`"q" x`, `"q" x`},
+}
+
+func (c *c05Case) runJSONish(ctx *core.Ctx, e struct{ Text, Want string }) {
+	ctx.NonTrivial()
+	q := `"`
+	if strings.Contains(e.Text, `"`) {
+		q = `'`
+	}
+	for _, form := range []string{"static", "interp", "interp-part"} {
+		attr := ` p=` + q + e.Text + q
+		data := map[string]any{"year": 1, "v": e.Text}
+		switch form {
+		case "interp": // the whole text comes from data
+			attr = ` p="{{ v }}"`
+		case "interp-part":
+			if !strings.Contains(e.Text, "1") {
+				continue
+			}
+			attr = ` p=` + q + strings.Replace(e.Text, "1", "{{ year }}", 1) + q
+		}
+		inc := `<template include="components/Show.vuego"` + attr + `></template>`
+		if c.Short {
+			inc = `<show` + attr + `></show>`
+		}
+		files := Files{"components/Show.vuego": `<h2 id="p">{{ p }}</h2>`, "page.vuego": `<div>` + inc + `</div>`}
+		ctx.Eval(1)
+		out, err := renderPage(files, "page.vuego", data, vuego.WithComponents())
+		if err != nil {
+			ctx.Violation("render-error", "jsonish/"+form, "static-prop", fmt.Sprintf("page %q: %v", files["page.vuego"], err))
+			continue
+		}
+		n := htmlcmp.ByID(htmlcmp.Parse(out), "p")
+		got := "<lost>"
+		if n != nil {
+			got = htmlcmp.Text(n)
+		}
+		ctx.Outcome(got)
+		if got != e.Want {
+			kind := "text-that-continues-after-a-json-value"
+			if json.Valid([]byte(e.Text)) {
+				kind = "json-value"
+			}
+			ctx.Violation("prop-value", "jsonish/"+form, kind, fmt.Sprintf("page %q: the component prints %q for its prop, want %q", files["page.vuego"], got, e.Want))
+		}
+	}
+}
+
 // runWide: an include with N props of alternating forms (static, bound, interpolated, v-bind:)
 func (c *c05Case) runWide(ctx *core.Ctx, n int) {
 	ctx.NonTrivial()
@@ -362,6 +418,12 @@ func (c *c05Case) runPlace(ctx *core.Ctx, place string) {
 func (c *c05Case) Run(ctx *core.Ctx) {
 	if strings.HasPrefix(c.Shape, "place:") {
 		c.runPlace(ctx, strings.TrimPrefix(c.Shape, "place:"))
+		return
+	}
+	if strings.HasPrefix(c.Shape, "jsonish:") {
+		var n int
+		fmt.Sscanf(c.Shape, "jsonish:%d", &n)
+		c.runJSONish(ctx, c05JSONish[n])
 		return
 	}
 	if strings.HasPrefix(c.Shape, "wide:") {
@@ -569,6 +631,10 @@ func init() {
 					emit(&c05Case{Shape: "place:" + place, Req: "crlf"})
 					emit(&c05Case{Shape: "place:" + place, Req: "trail"})
 				}
+			}
+			for n := range c05JSONish {
+				emit(&c05Case{Shape: fmt.Sprintf("jsonish:%d", n)})
+				emit(&c05Case{Shape: fmt.Sprintf("jsonish:%d", n), Short: true})
 			}
 			for n := 1; n <= 14; n++ {
 				emit(&c05Case{Shape: fmt.Sprintf("wide:%d", n)})
